@@ -28,7 +28,8 @@ def fast_path(rep, prog, rule):
     rep.rule(rule, "in resize_typed every resampler call is dominated by the failure edge of "
              "copy_image(..).is_ok(), and the success edge reaches the return without any other "
              "call that receives the destination")
-    f = flow.pipeline_body(prog)
+    f = flow.pipeline_body(prog, markers=("resample_nearest", "resample_convolution",
+                                          "resample_super_sampling", "copy_image"))
     rep.touch(f)
     sym = Sym(f)
     dom = Dom(f)
